@@ -24,6 +24,14 @@ def check(ctx):
     deqs = [(b, c) for (b, c) in body.calls if c.get("fname") == "consume_movable" and util.arg_path(body, c, 0) == ("free_list",)]
     ok = len(deqs) == 1 and not util.in_loop(body, deqs[0][0])
     ctx.ob("R13.1", f"{k('alloc_ref')}|one-dequeue", ok, f"{body.f['file']}:{body.f['line']}", f"{len(deqs)} free-list dequeue(s); exactly one per call, not in a loop")
+    # allocation fails only if the free list was found empty: every path to a return passes through the dequeue (no early-out on a side counter / flag / hint)
+    if len(deqs) == 1:
+        # (an early-out on the free list's own length query is an answer of the list too: it was empty at that instant)
+        asks_len = {b for (b, c) in body.calls if c.get("fname") in ("available_elements_count", "is_empty", "len") and util.arg_path(body, c, 0) == ("free_list",)}
+        esc = [r for r in body.returns if r in body.reach_from(0, avoid=frozenset({deqs[0][0]} | asks_len))] if deqs[0][0] != 0 and 0 not in asks_len else []
+        ctx.ob("R13.1", f"{k('alloc_ref')}|fails-only-when-the-free-list-is-empty", not esc, body.loc(esc[0]) if esc else f"{body.f['file']}:{body.f['line']}",
+               "every answer of alloc_ref (the None included) is produced after asking the free list" if not esc else
+               "alloc_ref can answer without asking the free list: a side counter / hint decides 'exhausted' while free ids may be queued (and must then agree with the list under every interleaving)")
     # returned tuple (slot_ref, slot_id)
     ret = dg.local(0)
     somes = [a for a in (ret[3] if ret[0] == "phi" else (ret,)) if a[0] == "adt" and a[1] == "Some"]
@@ -56,6 +64,11 @@ def check(ctx):
             s_ = show(e)
             okslot = "get_unchecked_mut" in s_ and "pool" in s_
             ctx.ob("R13.1", f"{k('dealloc_id')}|destroys-own-slot", okslot, body.loc(b), f"destroys `{s_}`; must be pool[slot_id]")
+            # the destructor that runs is the payload's: drop_in_place::<ManuallyDrop<T>> / ::<MaybeUninit<T>> / ::<*mut T> compiles and does nothing
+            targ = [g[1] for g in (c.get("gargs") or []) if g and g[0] == "T"]
+            inert = bool(targ) and (targ[0].split("<")[0].endswith(("ManuallyDrop", "MaybeUninit")) or targ[0].startswith(("*", "&")))
+            ctx.ob("R13.1", f"{k('dealloc_id')}|destroys-the-payload-type", bool(targ) and not inert, body.loc(b),
+                   f"drop_in_place::<{targ[0] if targ else '?'}>; required: the payload type itself (a wrapper whose own drop glue is empty would leave every pooled value undestroyed)")
     # ---------------------------------------------------------------- R13.1 initial fill
     body = Body(fx.fn(k("new"))); dg = D.Dag(body)
     rng = None
